@@ -445,6 +445,16 @@ class ExprMixin:
                         else z3.Unit(items[0].z)
                     )
                     return SV(TList(items[0].t), z)
+                if isinstance(c, dict) and c and all(isinstance(k, str) and isinstance(x, str) for k, x in c.items()):
+                    # a literal {str: str} table
+                    ks = [mk_const(k).z for k in c]
+                    has = z3.K(sym.IntSeq, z3.BoolVal(False))
+                    val = z3.K(sym.IntSeq, z3.Empty(sym.IntSeq))
+                    for k, x in c.items():
+                        has = z3.Store(has, mk_const(k).z, z3.BoolVal(True))
+                        val = z3.Store(val, mk_const(k).z, mk_const(x).z)
+                    keys = z3.Concat(*[z3.Unit(k) for k in ks]) if len(ks) > 1 else z3.Unit(ks[0])
+                    return SV(TDict(sym.STR, sym.STR), None, extra={"keys": keys, "has": has, "val": val})
             raise EngineError(f"cannot reify constant {v.const.v if v.const else v.extra!r}")
         return v
 
@@ -733,6 +743,10 @@ class ExprMixin:
         if isinstance(t, TSet):
             return z3.Select(container.z, sym.coerce(x, t.k).z)
         if isinstance(t, TDict):
+            if isinstance(x.t, TNone) and not isinstance(t.k, TOpt):
+                return z3.BoolVal(False)  # None is not a key of a dict whose keys are never None
+            if isinstance(x.t, TOpt) and not isinstance(t.k, TOpt):
+                return z3.And(z3.Not(sym.opt_is_none(x)), z3.Select(container.extra["has"], sym.coerce(sym.opt_val(x), t.k).z))
             return z3.Select(container.extra["has"], sym.coerce(x, t.k).z)
         raise EngineError(f"'in' on {t!r}")
 
